@@ -27,6 +27,9 @@ def ArgsOK (c : Cfg) (w : World) : Op → Prop
   | .repItItSIt _ _ d i j => i ≤ j ∧ j ≤ d.length
   | .repItItItIt _ _ x y | .appendItIt x y => ItRangeOK c w.t x y
   | .idx i => i ≤ c.L
+  | .itWalkIdx rev p ms k =>      -- `it[ k]`: the same contract as `operator[]` of the string
+    if rev then (k ≤ itWalk c w.s rev (itOf c w.s p) ms → itWalk c w.s rev (itOf c w.s p) ms - k ≤ c.L)
+    else addW c (itWalk c w.s rev (itOf c w.s p) ms) k ≤ c.L
   | .search fam nd =>
     (match nd with
      | .ppc a _ n => n ≤ a.length ∧ (fam = .rfind → 0 ∈ a)
@@ -37,7 +40,7 @@ def ArgsOK (c : Cfg) (w : World) : Op → Prop
 
 /-- the operations whose `std::string` counterpart throws too -/
 def MayThrow : Op → Prop
-  | .atI _ | .cat _ | .itDeref _ => True
+  | .atI _ | .cat _ | .itDeref _ | .itWalkDeref .. | .itWalkIdx .. => True
   | _ => False
 
 def StepOK (c cu : Cfg) (w : World) (op : Op) : Prop :=
@@ -188,6 +191,11 @@ theorem step_safe (hc : CfgOK c) (hcu : CfgOK cu) (hw : WFW c cu w) (op : Op) (h
   case iterCRev => exact Or.inl (obs_ok hw (iterRev_safe hs))
   case itDeref k => exact obs_throw hw trivial (itDeref_safe hs (itAt_inv _ _))
   case itDist => exact Or.inl ⟨_, _, rfl, hw⟩
+  case itWalk rev p ms => exact Or.inl ⟨_, _, rfl, hw⟩
+  case itRel rev r a b => exact Or.inl ⟨_, _, rfl, hw⟩
+  case itWalkDeref rev p ms =>
+    exact obs_throw hw trivial (itDeref_safe hs (itWalk_inv hc hs rev ms (itOf_inv w.s p)))
+  case itWalkIdx rev p ms k => exact obs_throw hw trivial (itIndex_safe hs rev _ k ha)
   case insertICC i n ch => exact Or.inl (mutS_ok hw (insertCh_safe hc hs i n ch))
   case insertIPC i a n => exact Or.inl (mutS_ok hw (insertP_safe hc hs i ha))
   case insertIP i a => exact Or.inl (mutS_ok hw (insertCstr_safe hc hs i ha))
